@@ -15,7 +15,7 @@
 (* last line; TraceAccepted (POSTCONDITION) checks that every line was     *)
 (* consumed.                                                               *)
 (***************************************************************************)
-EXTENDS Endpoint, SocketTab, Wire, TLC, TLCExt, Json, IOUtils
+EXTENDS Endpoint, SocketTab, Wire, Conn, TLC, TLCExt, Json, IOUtils
 
 Rec == ndJsonDeserialize(IOEnv.TRACE)
 N == Len(Rec)
@@ -56,7 +56,7 @@ RuleNames == {
     "C11.EmitWellFormed", "C11.EmitConnId",
     "C14.NeverAboveLink", "C14.OrdinaryWithinProven", "C14.OneProbe", "C14.Converges", "C14.LogProbes",
     "C17.FinSeq", "C17.FinAfterData", "C17.NothingAfterFin", "C17.PeerFinInOrder", "C17.FinAnswered",
-    "C17.ResetAborts", "C17.ResetNoReply", "C17.SynAckForm", "C17.SynAckRepeats",
+    "C17.ResetAborts", "C17.ResetNoReply", "C17.SynAckForm", "C17.SynAckRepeats", "C17.Transition",
     "C19.TxBounded", "C19.WriteNotStuck" }
 
 EmptyFn == << >>
@@ -170,7 +170,7 @@ Tick(r) ==
     \* an obligation is reported once
     /\ eps' = [k \in DOMAIN eps |->
                  [eps[k] EXCEPT !.ackImm = 0, !.frDue = 0, !.idleWr = 0, !.idleFin = 0, !.finAnsDue = 0, !.drainDue = 0,
-                                !.eofDue = 0,
+                                !.eofDue = 0, !.trans = [@ EXCEPT !.on = FALSE],
                                 !.slotDue = 0,
                                 !.resetAt = 0,
                                 !.ackDue = IF @ >= 0 /\ r.now > @ + Eps THEN -1 ELSE @,
@@ -366,8 +366,19 @@ Recv(r) ==
                                  !.lastWire = now,
                                  !.resetAt = IF r.t = ST_RESET THEN l ELSE @,
                                  !.stateAtReset = IF r.t = ST_RESET THEN r.state ELSE @]
-            IN  /\ eps' = [eps EXCEPT ![k] = e2]
-                /\ Judge(k, { <<"C06.FastRetx", e1.frDue > 0 /\ e.frDue = 0, TRUE>>,
+                \* C17: the state this packet meets must be one the previous packet was allowed to leave behind
+                \* (our FIN's number: the one transmitted, else the one designated when the peer's FIN was taken in -
+                \*  this implementation may still transmit segments it had already cut under that number, see DESIGN.md)
+                ourFin == IF e.fin.seq >= 0 THEN e.fin.seq ELSE IF e.finDesig >= 0 THEN e.finDesig ELSE e.nxt
+                tr == [on |-> TRUE, st |-> r.state,
+                       t |-> CASE r.t = ST_DATA -> "data" [] r.t = ST_STATE -> "state" [] r.t = ST_FIN -> "fin"
+                               [] r.t = ST_RESET -> "reset" [] OTHER -> "syn",
+                       ackSyn |-> r.ack = Nx(e.nxt, SeqMod - 1), ackFin |-> r.ack = ourFin, seqNext |-> r.seq = Nx(e.rnxt, 1)]
+            IN  /\ eps' = [eps EXCEPT ![k] = [e2 EXCEPT !.trans = tr]]
+                \* (a local step - the application closing - may come between two packets when they are taken in
+                \*  separate polls)
+                /\ Judge(k, { <<"C17.Transition", e.trans.on, ~e.trans.on \/ r.state \in LocalClosure(Allowed(e.trans.st, e.trans))>>,
+                              <<"C06.FastRetx", e1.frDue > 0 /\ e.frDue = 0, TRUE>>,
                               <<"C17.ResetAborts", r.t = ST_RESET, TRUE>>,
                               <<"C18.NagleDrain", drain, TRUE>>,
                               <<"C12.DeliverToNamed", TRUE, R_C12_DeliverToNamed(Sock(r.local), SKey(r))>> })
@@ -521,6 +532,8 @@ Poll(r) ==
     /\ IF ~Live(k) THEN UNCHANGED eps /\ NoJudge
        ELSE LET e == eps[k] IN
             /\ Judge(k, {
+                  \* C17: at the end of the poll the state is what the last packet allowed, or a local step further
+                  <<"C17.Transition", e.trans.on, ~e.trans.on \/ r.state \in LocalClosure(Allowed(e.trans.st, e.trans))>>,
                   \* the retransmission timer runs while transmitted data or a FIN awaits acknowledgement
                   <<"C06.TimerArmed", (SentUnacked(e) \/ FinUnacked(e)) /\ e.dying = "" /\ r.state # "closed",
                                       r.t_rtx >= 0>>,
@@ -538,6 +551,7 @@ Poll(r) ==
                                           /\ e.probeOut < 0 /\ ~e.probeQ /\ ~r.pending /\ r.ring_len > 0,
                                          ~(r.ring_len > r.segmented /\ r.segmented < r.pwnd)>> })
             /\ eps' = [eps EXCEPT ![k] = [e EXCEPT !.state = r.state, !.tRtx = r.t_rtx, !.tAck = r.t_ack,
+                                                   !.trans = [@ EXCEPT !.on = FALSE],
                                                    !.codeMss = r.mss, !.codeMaxSs = r.max_ss,
                                                    !.idleArmed = IF ~SentUnacked(e) /\ ~FinUnacked(e) THEN r.t_rtx
                                                                  ELSE IF @ = r.t_rtx THEN @ ELSE -1,
@@ -550,8 +564,11 @@ Dying(r) ==
     LET k == Key(r) IN
     /\ UNCHANGED <<run, now, meta, sendIdx, app, infl, sk, pairs, last>>
     /\ IF ~Live(k) THEN UNCHANGED eps /\ NoJudge
-       ELSE /\ Judge(k, { <<"C10.NoBugError", TRUE, ~IsBug(r.result)>> })
-            /\ eps' = [eps EXCEPT ![k].dying = r.result,
+       ELSE /\ Judge(k, { <<"C10.NoBugError", TRUE, ~IsBug(r.result)>>,
+                          \* (a connection that dies of an error other than a RESET may be in any state)
+                          <<"C17.Transition", eps[k].trans.on /\ (r.result = "ok" \/ eps[k].trans.t = "reset"),
+                                              ~eps[k].trans.on \/ r.state \in LocalClosure(Allowed(eps[k].trans.st, eps[k].trans))>> })
+            /\ eps' = [eps EXCEPT ![k].dying = r.result, ![k].trans = [@ EXCEPT !.on = FALSE],
                                   \* known finding: the inactivity abort fires while a retransmission is still
                                   \* scheduled (RTO back-off can exceed the inactivity timeout)
                                   \* (that finding is about packets the NETWORK lost: it does not cover an endpoint that took
